@@ -12,13 +12,15 @@ import (
 	"verif/uni"
 )
 
-func coverCfg(c *engine.Chooser, k cfg) {
+func coverCfg(c *engine.Chooser, params rlwe.Parameters, k cfg) {
 	c.Cover("proto", k.proto)
 	c.Cover("chain", k.chain.Name)
+	c.Cover("ntt", fmt.Sprint(k.ntt))
 	if k.proto != "cpk" {
+		_, lq, lp := evkParameters(params, k)
 		c.Cover("b2", fmt.Sprint(k.b2))
-		c.Cover("lp", fmt.Sprint(k.lp))
-		c.Cover("lq", fmt.Sprint(k.lq))
+		c.Cover("lp", fmt.Sprint(lp))
+		c.Cover("lq", fmt.Sprint(lq))
 	}
 }
 
@@ -42,7 +44,7 @@ func cpkEncryptBound(params rlwe.Parameters, parties int) *big.Int {
 
 func cpkLeaf(c *engine.Chooser, name string, k cfg) {
 	params := k.chain.RLWE(k.ntt)
-	coverCfg(c, k)
+	coverCfg(c, params, k)
 	uni.Seed(c, name, "setup")
 	P := mp.NewParties(params, k.n)
 
